@@ -483,7 +483,14 @@ func checkStreamWriter(p *Program, r *Result) {
 				if bi < len(pa.Edge) && pa.Edge[bi] >= 0 {
 					if ifi, ok := b.Instrs[len(b.Instrs)-1].(*ssa.If); ok {
 						a := ctb.atomOf(Guard{If: ifi, Cond: ifi.Cond, Pol: pa.Edge[bi] == 0})
-						if a.Kind == "cmp" && a.Y.Op == "Nil" && strings.HasPrefix(a.X.String(), "Field(Recv.err") {
+						if a.Kind == "cmp" && a.Y.Op == "Nil" && lastStore != nil && a.X.V != nil && stripConv(a.X.V) == stripConv(lastStore.Val) {
+							// the branch tests the value just stored in w.err
+							if a.Op == "!=" {
+								state = "nonnil"
+							} else {
+								state = "nil"
+							}
+						} else if a.Kind == "cmp" && a.Y.Op == "Nil" && strings.HasPrefix(a.X.String(), "Field(Recv.err") {
 							if ld, ok := a.X.V.(*ssa.UnOp); ok && ld.Op == token.MUL {
 								if lastStore == nil || (ld.Block() == lastStore.Block() && instrIndex(ld) > instrIndex(lastStore)) || (ld.Block() != lastStore.Block() && lastStore.Block().Dominates(ld.Block())) {
 									if a.Op == "!=" {
